@@ -7,6 +7,7 @@ for l in open('/verif/properties.jsonl'):
     p=json.loads(l)
     if p['id']==pid: break
 else: sys.exit("no such property")
+ROUND=sys.argv[3] if len(sys.argv)>3 else ""
 print(f"""You are testing a Go project (mvdan/sh, a shell parser/formatter/interpreter). You have your own scratch git worktree of it at {wt} (work ONLY there; never touch /repo or /verif, and do not read /verif).
 
 Here is a semantic property the project is supposed to satisfy:
@@ -26,4 +27,4 @@ Task: produce TWO independent, realistic changes to the project's non-test Go so
 
 Environment: no network. Use `export GOFLAGS=-mod=mod GOPROXY=off` before go commands; run go from inside {wt} (the go.mod there selects the right toolchain automatically; do NOT set GOTOOLCHAIN or GOSUMDB). Do not edit existing test files. Do not commit anything.
 
-Deliver, under {wt}/SEED/ (create it), for change k in 1,2: SEED/k/patch.diff (output of `git diff` for the non-test source change only, applying cleanly with `git apply` to the original tree), SEED/k/demo_test.go (the demonstration, with a first-line comment saying which package directory it belongs in) and SEED/k/README.md (what the change is, why it breaks the property, what it needs to manifest, and the exact commands you ran with their observed results: demo fails with the change, demo passes without it, full suite passes with the change). Before finishing, leave the worktree source reverted to the original (git checkout -- . ; remove your demo file from the package dir) so only SEED/ remains. In your final answer, summarise both changes in a few lines each. If you can only find one valid change, deliver one.""")
+Deliver, under {wt}/SEED/ (create it), for change k in 1,2: SEED/k/patch.diff (output of `git diff` for the non-test source change only, applying cleanly with `git apply` to the original tree), SEED/k/demo_test.go (the demonstration, with a first-line comment saying which package directory it belongs in) and SEED/k/README.md (with the sections '## The change', '## Why it breaks the property', '## What it needs to manifest', '## Commands run and results': what the change is, why it breaks the property, what it needs to manifest, and the exact commands you ran with their observed results: demo fails with the change, demo passes without it, full suite passes with the change). Before finishing, leave the worktree source reverted to the original (git checkout -- . ; remove your demo file from the package dir) so only SEED/ remains. In your final answer, summarise both changes in a few lines each. If you can only find one valid change, deliver one.""")
